@@ -100,7 +100,7 @@ class Ctx:
     # -- proofs -------------------------------------------------------------------------------------
     def prove(self, modules: list[str]):
         """build the Props modules and audit them; records obligations / discharged / broken."""
-        ok, out = lean.lake_build(["PvModel", "Driver"] + modules)
+        ok, out = lean.lake_build(["Driver"] + modules)
         names = []
         for m in modules:
             p = lean.LEAN_DIR / (m.replace(".", "/") + ".lean")
@@ -113,7 +113,7 @@ class Ctx:
             self.broken.append("lake build failed")
             self.extra["build_output_tail"] = out[-3000:]
             # the driver may still be usable if only a Props module failed
-            ok2, _ = lean.lake_build(["PvModel", "Driver"])
+            ok2, _ = lean.lake_build(["Driver"])
             if not ok2:
                 raise lean.InfraError("model/driver do not build:\n" + out[-3000:])
             # which theorems failed: the ones named in error lines; conservatively: try the audit below
